@@ -20,6 +20,15 @@ def _copy_tree(repo, dst):
             shutil.copytree(s, os.path.join(dst, pkg), ignore=shutil.ignore_patterns("__pycache__", "*.pyc"))
 
 
+def _apply_patch(root, patch):
+    import subprocess
+
+    p = subprocess.run(["patch", "-p1", "--no-backup-if-mismatch", "-s", "-f", "-i", patch], cwd=root, capture_output=True, text=True)
+    if p.returncode != 0:
+        return "patch does not apply to the current tree: " + (p.stdout + p.stderr).strip().splitlines()[0][:120] if (p.stdout + p.stderr).strip() else "patch does not apply"
+    return None
+
+
 def _apply(root, edits):
     """edits: list of (relpath, old, new[, count]).  -> None if applied, else reason string"""
     for ed in edits:
@@ -48,7 +57,7 @@ def _run_one(args):
     tmp = tempfile.mkdtemp(prefix="awstatic-st-")
     try:
         _copy_tree(repo, tmp)
-        why = _apply(tmp, edits)
+        why = _apply_patch(tmp, variant["patch"]) if variant.get("patch") else _apply(tmp, edits)
         if why is not None:
             return {"name": name, "expect": expect, "skipped": True, "why": why, "pass": True}
         code, rep = run_property(prop, "quick", tmp, os.path.join(tmp, "_ev"), quiet=True, selftest=False)
@@ -62,7 +71,7 @@ def _run_one(args):
                 res["why"] = f"behaviour-preserving variant made the check exit {code}: {got or res['undecided'] or res['errors']}"
         else:
             rules = expect if isinstance(expect, (list, tuple)) else [expect]
-            hit = any(any(g.startswith(r.split("@")[0] + "@") and (("@" not in r) or r.split("@")[1] in g) for g in got) for r in rules)
+            hit = any(r == "*" or any(g.startswith(r.split("@")[0] + "@") and (("@" not in r) or r.split("@")[1] in g) for g in got) for r in rules) and bool(got)
             res["pass"] = code == 1 and hit
             if not res["pass"]:
                 res["why"] = f"breaking variant not reported under {rules}: exit {code}, violations {got}, undecided {res['undecided']}, errors {res['errors']}"
@@ -81,6 +90,20 @@ def run_selftest(prop, mod, rep, jobs=None):
         else:
             name, rel, old, new, expect = v
             variants.append({"name": name, "edits": [(rel, old, new)], "expect": expect})
+    # corpora kept under /verif: independent mutants that break this property, and behaviour-preserving refactorings
+    import glob
+    import json as _json
+
+    here = os.path.dirname(os.path.dirname(os.path.abspath(__file__)))
+    for d in sorted(glob.glob(os.path.join(here, "seeded", "*"))):
+        try:
+            meta = _json.load(open(os.path.join(d, "meta.json")))
+        except Exception:
+            continue
+        if prop in (meta.get("static_checks", {}).get("caught_by") or []) or meta.get("property") == prop:
+            variants.append({"name": f"seeded {os.path.basename(d)}: {str(meta.get('what_breaks', ''))[:70]}", "edits": [], "patch": os.path.join(d, "patch.diff"), "expect": "*"})
+    for d in sorted(glob.glob(os.path.join(here, "benign", "*"))):
+        variants.append({"name": f"benign {os.path.basename(d)}", "edits": [], "patch": os.path.join(d, "patch.diff"), "expect": "ok"})
     jobs = jobs or min(16, max(1, len(variants)))
     args = [(prop, rep.repo, v) for v in variants]
     if jobs > 1 and len(args) > 1:
